@@ -48,6 +48,12 @@ pub fn unsupported(lang: Lang, d: &Desc) -> Option<String> {
                 }
             }
             DeclKind::Group { .. } => return Some("group left after inlining".into()),
+            // generate_struct_declaration never looks at the parent: a derived struct is emitted
+            // with its own fields only (the repository's C++ tests cover packets only)
+            DeclKind::Struct { parent: Some(_), .. } if lang == Lang::Cxx => return Some("derived struct (C++ backend ignores struct parents)".into()),
+            // ... and a struct with a payload is only meaningful as a parent (its Parse assigns a
+            // slice to a byte vector and does not compile)
+            DeclKind::Struct { fields, .. } if lang == Lang::Cxx && fields.iter().any(|f| f.is_payload()) => return Some("struct with a payload (C++ backend has no derived structs)".into()),
             _ => {}
         }
         let fields = decl.fields();
